@@ -1,7 +1,7 @@
 (* Property C09 - zip: the k-th output is the row of k-th items; ends with the shortest input. *)
 From Coq Require Import List Arith Bool.
 Import ListNotations.
-Require Import ScanFull InstsFull ObligMZ C11Groups C09Zip C02Join C02Merge C02Zip.
+Require Import ScanFull InstsFull ObligMZ C11Groups C09Zip Monitors C02Join C02Merge C02Zip.
 
 (* [Tz n s t] (Proofs/C09Zip.v): while no input has ended (Zl): no End answer so far, results = rows, every row has n entries, and for
    every input i the items it has answered are column i of the rows followed by at most one buffered item;
@@ -25,3 +25,11 @@ Example C09_witness :
   let w := zip_world true scs [OPollFresh; OPollFresh] in
   dropped _ w = false /\ results (strip (tr _ w)) = [OSome None [1; 2]; ONone].
 Proof. vm_compute. split; reflexivity. Qed.
+
+(* the same statement as a boolean predicate over the observable trace (zip_b, Proofs/Monitors.v; a state-free consequence of the invariant above):
+   the function that runner/montool.ml evaluates on every trace of the crate *)
+Theorem C09_rows_predicate_holds selective scs ops :
+  let w := zip_world selective scs ops in
+  dropped _ w = false -> zip_b (length scs) (strip (tr _ w)) = true.
+Proof. exact (zip_b_holds selective scs ops). Qed.
+Print Assumptions C09_rows_predicate_holds.
